@@ -115,7 +115,7 @@ CLAIMS = {
         "text": ("Theorems for every list of buffered rows and every grouping key list: each group is exactly the fibre of its key "
                  "(arrival order, non-empty), keys are pairwise distinct, every row's key has a group; hence group COUNTs add up to the "
                  "ungrouped COUNT, group SUMs to the ungrouped SUM, and a group's aggregate equals the aggregate of the ungrouped rows "
-                 "restricted to key = value. ORDER BY over the group rows: the comparison is mirror-symmetric for every key list, direction list and pair of rows, whatever mix of numbers and text the cells hold (grouped_cmp_mirror over cellCmp_swap: total, never 'less' both ways; D80 fixed); the comparison of cells is a TOTAL ORDER — cell_order_is_total: transitive in all four </= combinations for every three cells, being the lexicographic order of (number before text, numeric value under total_cmp, integer spelling, text), proved from the orders of Q, Z and code points together with the lemma that the model's i64 parser accepts nothing its f64 parser rejects; numbers sort before everything that is no number (number_before_text). Transitivity of the row comparison over several keys with directions follows the same scheme and is checked by the pairwise oracle, not stated as a theorem. Group order is unspecified in the code (HashMap) and compared as a multiset (within "
+                 "restricted to key = value. ORDER BY over the group rows: the comparison is mirror-symmetric for every key list, direction list and pair of rows, whatever mix of numbers and text the cells hold (grouped_cmp_mirror over cellCmp_swap: total, never 'less' both ways; D80 fixed); the comparison of cells is a TOTAL ORDER — cell_order_is_total: transitive in all four </= combinations for every three cells, being the lexicographic order of (number before text, numeric value under total_cmp, integer spelling, text), proved from the orders of Q, Z and code points together with the lemma that the model's i64 parser accepts nothing its f64 parser rejects; numbers sort before everything that is no number (number_before_text). group_row_order_is_total: the comparison of whole rows over any key list with any directions is a total order too (lexicographic combination, desc = reversal). Group order is unspecified in the code (HashMap) and compared as a multiset (within "
                  "ORDER BY tie runs); ORDER BY on key/aggregate and rendering are decided by correspondence and the Python oracle."),
         "ref": "DESIGN.md §4 C08",
     },
